@@ -267,11 +267,13 @@ def dag_spec(draw, max_stages: int = 6, allow: tuple[str, ...] = ("multi", "fail
                 kinds.append("transient")
             if "fail" in allow:
                 kinds.append("fail")
+            if "disabled" in allow:
+                kinds.append("disabled")  # a SkippableTask whose is_enabled() is false
             b = draw(st.sampled_from(kinds))
             t: dict[str, Any] = {"b": b}
             if b in ("poll", "transient"):
                 t["k"] = draw(st.integers(1, 2))
-            if b != "fail" and emit_keys and draw(st.booleans()):
+            if b not in ("fail", "disabled") and emit_keys and draw(st.booleans()):
                 key = draw(st.sampled_from(KEYS))
                 t["emit"] = [emit(key, "const", list=(key == "k_3"))]
             tasks.append(t)
